@@ -26,6 +26,7 @@ CONSTANTS
     MaxFaults,   \* how many transport faults the environment may inject
     Serve,       \* "full" = model serveChannel + read loop from the start; "pre" = channel already active, reader parked in Read
     Reads,       \* number of transport reads that succeed before the peer goes silent
+    Swallow,     \* TRUE = the pipeline has an exception handler that consumes every exception
     PCancel,     \* TRUE = the environment may cancel the parent context (bootstrap shutdown) once
     FixClosed,   \* TRUE = entry points test the closed flag, close error never nil (C11 repair)
     FixDrain     \* TRUE = Close takes the sender role and drains (C06 repair)
@@ -650,7 +651,7 @@ TReadFail ==
     /\ pc["R"] = "t.read" /\ faults > 0 /\ ~tclosed
     /\ faults' = faults - 1
     /\ NoFinish
-    /\ IF closed = 0
+    /\ IF closed = 0 /\ ~Swallow
        THEN /\ carg' = [carg EXCEPT !["R"] = "rerr"]
             /\ stack' = [stack EXCEPT !["R"] = <<"r.check">> \o @]
             /\ pc' = PcAfter(One("R", "c.cas"))
@@ -660,10 +661,15 @@ TReadFail ==
                    tlog, flushed, batch, nexts, mutex, mwait, polls, inactives, actives, reads,
                    readsLeft, rinflight, cancelled, acc, begun, before, accAtClose, closeRet,
                    lateBegun, drainedOK>>
-    /\ fatal' = (fatal \/ closed = 0)
+    /\ fatal' = (fatal \/ (closed = 0 /\ ~Swallow))
 
 -----------------------------------------------------------------------------
+\* the channel is handed to writers and closers only once serveChannel has been called
+Served(p) == (p \in Writers \cup Closers) => pc["V"] # "v.start"
+
 Step(p) ==
+  /\ Served(p)
+  /\
     \/ (p \in Writers /\ (MEnter(p) \/ RFEnter(p) \/ WEnter(p) \/ WSelect(p) \/ WCas(p) \/ TWrite(p) \/ TWFlush(p)))
     \/ (p \notin Writers /\ (XStart(p) \/ SPoll(p) \/ TWritev(p) \/ SLen(p) \/ TSFlush(p)
                              \/ SRelease(p) \/ SRecheck(p) \/ SRecas(p) \/ SFail(p)
@@ -673,6 +679,8 @@ Step(p) ==
     \/ (p = "R" /\ (RActive \/ RCheck \/ TRead))
 
 Fault(p) ==
+  /\ Served(p)
+  /\
     \/ (p \in Writers /\ (TWriteFail(p) \/ TWFlushFail(p)))
     \/ (p \notin Writers /\ (TWritevFail(p) \/ TSFlushFail(p)))
     \/ (p = "R" /\ TReadFail)
